@@ -8,7 +8,7 @@ use crate::util::tree;
 use serde_json::json;
 use std::sync::Arc;
 
-pub const FORMS: [&str; 16] = [
+pub const FORMS: [&str; 17] = [
     " ",
     "  ",
     "\t",
@@ -25,6 +25,7 @@ pub const FORMS: [&str; 16] = [
     " `nounconnected_drive ",
     "`line 1 \"f\" 0\n",
     "`define V__ 1\n`undef V__\n",
+    "`define W__ a \\\r\n b \\\r\n c\r\n`undef W__\r\n",
 ];
 
 struct Base {
@@ -131,7 +132,7 @@ pub fn build(tier: Tier) -> Check<'static> {
     let nf = FORMS.len();
     {
         let s = seeds.clone();
-        c.parts.push(Part::new("all-gaps", (s.len() * nf) as u64, "each accepted seed with all plain non-empty gaps replaced by one of 16 trivia forms", move |i, acc| {
+        c.parts.push(Part::new("all-gaps", (s.len() * nf) as u64, "each accepted seed with all plain non-empty gaps replaced by one of 17 trivia forms", move |i, acc| {
             let seed = &s[(i as usize) / nf];
             let form = FORMS[(i as usize) % nf];
             let Some(base) = base_of(&seed.text, seed.is_lib()) else {
@@ -202,7 +203,7 @@ pub fn build(tier: Tier) -> Check<'static> {
         // `resetall is a description of its own in the SystemVerilog grammar: the trivia that follows
         // it is owned by the directive's keyword, not by a token of the surrounding construct
         let s = seeds.clone();
-        c.parts.push(Part::new("resetall-trivia", (s.len() * nf) as u64, "`resetall before every top-level description of each accepted seed, followed by each of the 16 trivia forms instead of a line end", move |i, acc| {
+        c.parts.push(Part::new("resetall-trivia", (s.len() * nf) as u64, "`resetall before every top-level description of each accepted seed, followed by each of the 17 trivia forms instead of a line end", move |i, acc| {
             let seed = &s[(i as usize) / nf];
             let form = FORMS[(i as usize) % nf];
             if seed.is_lib() {
@@ -247,7 +248,7 @@ pub fn build(tier: Tier) -> Check<'static> {
         let inserts: Vec<String> = std::iter::once("`resetall\n".to_string()).chain(FORMS.iter().map(|f| format!("`resetall{}{}", if f.starts_with(|c: char| c.is_ascii_whitespace() || c == '/') { "" } else { " " }, f))).collect();
         let ni = inserts.len();
         let n = templates.len() * 8 * ni;
-        c.parts.push(Part::new("resetall-and-macros", n as u64, "6 sources whose descriptions share text macros (object-like, function-like, redefined, include-guard style, caller-supplied, inside a keyword region) x every non-empty subset of their 2-3 inter-description positions x `resetall followed by a line end or one of the 16 trivia forms: same acceptance and tree as without", move |i, acc| {
+        c.parts.push(Part::new("resetall-and-macros", n as u64, "6 sources whose descriptions share text macros (object-like, function-like, redefined, include-guard style, caller-supplied, inside a keyword region) x every non-empty subset of their 2-3 inter-description positions x `resetall followed by a line end or one of the 17 trivia forms: same acceptance and tree as without", move |i, acc| {
             let i = i as usize;
             let (tpl, pre) = &templates[i / (8 * ni)];
             let mask = (i / ni) % 8;
@@ -403,7 +404,7 @@ pub fn build(tier: Tier) -> Check<'static> {
             }
         }
         let table = Arc::new(table);
-        c.parts.push(Part::new("single-gap", (table.len() * nf) as u64, "each accepted seed x each single plain gap x each of 16 trivia forms", move |i, acc| {
+        c.parts.push(Part::new("single-gap", (table.len() * nf) as u64, "each accepted seed x each single plain gap x each of 17 trivia forms", move |i, acc| {
             let (si, k) = table[(i as usize) / nf];
             let form = FORMS[(i as usize) % nf];
             let seed = &s[si];
